@@ -1,5 +1,8 @@
 import PncProofs.PrefixLemmas
 import PncProofs.C13
+import PncProofs.BoundaryPrefix
+import PncProofs.WindPrefix
+import PncProofs.C09
 
 /-!
 # C14 — truncated binary files are never silently misread (uamiv memory-mapped reader)
@@ -209,5 +212,50 @@ theorem slab_prefix_safe (k : Kind) (f : SFile) (h : WF f) (n : Nat) (hn : n ≤
     rw [if_pos (by rw [hlenpre]; simpa using hmod)]
 
 end slab
+
+/-- **C14 (lateral boundary files).** For every well-formed boundary file and every cut point in words, the
+memory-mapped reader either rejects the prefix or the prefix is exactly the encoding of the same headers and edge
+definitions with the leading `k ≥ 1` time steps, and that is what the reader presents: never a partial step, never a
+step with other content.  (A cut inside a word is rejected by numpy before the reader sees any step: the byte length
+is then no multiple of the block size.) -/
+theorem boundary_prefix_safe (nspec nx ny nz : Nat) (f : Boundary.BFile) (w : Boundary.WFb nspec nx ny nz f) (n : Nat) :
+    Boundary.read ((Boundary.encode f).take n) = none ∨
+    ∃ k, 1 ≤ k ∧ k ≤ f.steps.length ∧ (Boundary.encode f).take n = Boundary.encode { f with steps := f.steps.take k } ∧
+      Boundary.read ((Boundary.encode f).take n) = some { f with steps := f.steps.take k } :=
+  Boundary.read_prefix nspec nx ny nz f w n
+
+/-- non-vacuity: in the two-step example both outcomes occur — the file cut after its first step is read as that step,
+the file cut one word later is rejected -/
+example : Boundary.read ((Boundary.encode Props.C09.exBoundary).take (157 + 68)) =
+      some { Props.C09.exBoundary with steps := Props.C09.exBoundary.steps.take 1 } ∧
+    Boundary.read ((Boundary.encode Props.C09.exBoundary).take (157 + 69)) = none := by
+  constructor <;> decide +kernel
+
+/-- **C14 (wind files).** For every well-formed wind file and every cut point in words, the memory-mapped reader
+rejects a prefix that does not hold the first time step completely and otherwise presents exactly the leading whole
+time steps of the file — `n / (words per step)` of them, identical to those of the full file. -/
+theorem wind_prefix_safe (cells nz h : Nat) (steps : List Wind.WStep) (w : Wind.WFw cells nz h steps) (n : Nat) :
+    Wind.read cells ((Wind.encode steps).take n) =
+      if n < (h + 2) + (cells + 2) * (2 * nz) + 3 then none
+      else some (steps.take (n / ((h + 2) + (cells + 2) * (2 * nz) + 3))) :=
+  Wind.read_prefix cells nz h steps w n
+
+/-- in particular what a prefix presents is a prefix of what the full file presents, and it is never empty -/
+theorem wind_prefix_steps (cells nz h : Nat) (steps : List Wind.WStep) (w : Wind.WFw cells nz h steps) (n : Nat)
+    (got : List Wind.WStep) (hgot : Wind.read cells ((Wind.encode steps).take n) = some got) :
+    ∃ k, 1 ≤ k ∧ got = steps.take k := by
+  rw [wind_prefix_safe cells nz h steps w n] at hgot
+  split at hgot
+  · exact absurd hgot (by simp)
+  · rename_i hn
+    refine ⟨n / ((h + 2) + (cells + 2) * (2 * nz) + 3), ?_, (Option.some.inj hgot).symm⟩
+    exact (Nat.one_le_div_iff (by omega)).mpr (by omega)
+
+/-- non-vacuity: the two-step example (16 words per step) cut after 15, 16, 31 and 32 words -/
+example :
+    let steps : List Wind.WStep := [⟨1, 19200, some 0, [[1, 2], [3, 4]]⟩, ⟨2, 19200, some 0, [[5, 6], [7, 8]]⟩]
+    Wind.read 2 ((Wind.encode steps).take 15) = none ∧ Wind.read 2 ((Wind.encode steps).take 16) = some (steps.take 1) ∧
+    Wind.read 2 ((Wind.encode steps).take 31) = some (steps.take 1) ∧ Wind.read 2 ((Wind.encode steps).take 32) = some steps := by
+  decide +kernel
 
 end Props.C14
